@@ -16,7 +16,7 @@ CLAIMED = {
           "multi-daemon histories observed by an audit hook: strictly inside a node root, roots/markers never removed, sentinel outside untouched."),
     note=NOTE_COMMON + " OS symlink resolution is outside the string theorems.",
     technique="Lean 4 proof over translated source function + exhaustive model/implementation correspondence",
-    ref="§5 C06"),
+    ref="DESIGN.md §4 C06"),
  "C01": dict(
     text=("Lean theorems over an index-level World model, for every history of operator commands, external faults and task steps in any "
           "interleaving (task-step granularity; one delete step per copy): an unlink by a delete step implies >= 2 healthy archive copies on "
@@ -26,16 +26,18 @@ CLAIMED = {
           "update_delete/delete_async/check/update_pull/search/pull_async on real indexes and directories, compared after every step."),
     note=NOTE_COMMON + " Task-step atomicity across daemons (DESIGN §4.1); storage_type read at task start.",
     technique="Lean 4 proof (invariant over histories) + step-wise model/implementation correspondence with unlink oracle",
-    ref="§5 C01"),
+    ref="DESIGN.md §4 C01"),
  "C02": dict(
     text=("Lean theorems over the World model: a pull completes the request only on a successful transfer, and then the destination holds the "
           "source's bytes and a healthy/wanted/ready copy row exists (same step = same transaction); every failure leaves the request "
           "pending, nothing at the destination path, no new healthy row, source flagged suspect exactly when it may be at fault; "
-          "overwriting is reachable only through a destination recorded corrupt (single-node groups). Tie: every transport route with "
-          "scripted tools, all destination pre-states, DB fault at every statement of the pull task."),
-    note=NOTE_COMMON + " Byte fidelity of rsync/bbcp is their exit-code/digest contract; multi-node groups (Transport, HSM) pull_force placement not modelled (F11).",
+          "overwriting is reachable only through a destination group whose state is 'corrupt', which (theorem for groups of any size and any row order) "
+          "means no copy of the group is healthy or awaiting a check. Tie: exhaustive grid source kind x transport/tool outcome x destination pre-state "
+          "through the daemon's own decide->search->pull chain, random histories, multi-node group-state stage, DB fault at every statement of the pull task. "
+          "Known finding F11: forced re-pull into a Transport group may overwrite a never-verified file on another node."),
+    note=NOTE_COMMON + " Byte fidelity of rsync/bbcp is their exit-code/digest contract; Transport groups' node choice is modelled (C05); their forced re-pull placement is the known finding F11.",
     technique="Lean 4 proof (case analysis per transfer outcome) + route x outcome x pre-state correspondence and fault enumeration",
-    ref="§5 C02"),
+    ref="DESIGN.md §4 C02"),
  "C14": dict(
     text=("Lean theorems: for every history of dispatches and task ends by any path, reserved = factor x sizes of live pulls (never negative, "
           "no failing release, zero when idle); a pull is admitted only if not under-min, not at limit and factor x size fits net of "
@@ -43,7 +45,7 @@ CLAIMED = {
           "tasks ending by all seven paths (incl. DB errors) with _reserved_bytes read after every event."),
     note=NOTE_COMMON + " reserve/release are single critical sections on one mutex (sequential consistency assumed); KiB-exact space values.",
     technique="Lean 4 proof (invariant over event histories) + event-sequence correspondence",
-    ref="§5 C14"),
+    ref="DESIGN.md §4 C14"),
  "C03": dict(
     text=("Lean theorems for all observations/registrations: the check verdict is Y/X/N exactly per the rule (registered size none/0/n), "
           "the block/chunk loop of _md5sum_file feeds the hash exactly the content for every content and positive block/chunk size, "
@@ -51,7 +53,7 @@ CLAIMED = {
           "check_async on real files around block/chunk boundaries with damage, hashlib recorder, exhaustive validator strings."),
     note=NOTE_COMMON + " MD5 is a parameter (hashlib's incremental law assumed).",
     technique="Lean 4 proof (case analysis, induction over blocks) + differential correspondence through the real CLI and check task",
-    ref="§5 C03"),
+    ref="DESIGN.md §4 C03"),
  "C04": dict(
     text=("Lean theorems: an import registers something iff the path is under the root, not the root/marker, a regular non-symlink file "
           "resolving inside the root, not dot-named, not locked, and a detector returns a canonical proper-ancestor name (and registration "
@@ -62,7 +64,7 @@ CLAIMED = {
           "preempted at every SQL statement."),
     note=NOTE_COMMON + " Row uniqueness is the database's unique indexes; file_walk itself is exercised, not modelled.",
     technique="Lean 4 proof (finite case analysis + small-step invariant for n workers) + differential correspondence incl. statement-level interleaving",
-    ref="§5 C04"),
+    ref="DESIGN.md §4 C04"),
  "C17": dict(
     text=("Lean theorems for check_then_update/check_if_from_stdin: the update pass runs iff no --check and (--force or (list not from stdin "
           "and confirmed)); transaction model all-or-nothing. Tie (the part no theorem can give): every mutating sub-command (24) with "
@@ -70,7 +72,7 @@ CLAIMED = {
           "tables unchanged; an OperationalError at every statement index leaves the before- or the after-state."),
     note=NOTE_COMMON + " click's option parsing; that every write sits behind the decision is established by the enumeration, not by proof.",
     technique="Lean 4 proof of the decision logic + exhaustive statement-index fault enumeration on the real CLI",
-    ref="§5 C17"),
+    ref="DESIGN.md §4 C17"),
  "C18": dict(
     text=("Lean theorems: node clean (with/without size budget) updates exactly the documented set (budget = shortest id-ordered prefix "
           "reaching SIZE, copies at the goal counted), node verify / cancel forms select exactly the stated states, sync creates exactly the "
@@ -78,26 +80,32 @@ CLAIMED = {
           "specification computed from the help text. Known findings: --days sign (F6), --now --size --target own group (F15)."),
     note=NOTE_COMMON + " Help text as specification; file-level filters (acq, list, targets, age) computed by the harness from the documentation.",
     technique="Lean 4 proof (loop = prefix specification, idempotence) + differential correspondence on the real CLI",
-    ref="§5 C18"),
+    ref="DESIGN.md §4 C18"),
  "C05": dict(
     text=("Lean theorems over the World/daemon model: PROGRESS (a wanted suspect copy gets a verdict; a released copy is deleted unless the "
           "deletion-safety count holds it back; a request that is not blocked is cancelled terminally or dispatched; a dispatched, honestly "
           "transferred request completes) and CLASSIFICATION (if no first-level step of an update pass changes index or storage, every "
-          "pending item of that host is blocked for one of the documented reasons or handed to the transport). PARTIAL: the bound on the "
+          "pending item of that host - the first pending request per file and group, the one the code examines - is blocked for one of the "
+          "documented reasons or handed to the transport); Transport groups: a request is handed to the fullest eligible node iff the source "
+          "is local and some node can take the file. PARTIAL: the bound on the "
           "number of iterations is measured by the tie (rounds-to-fixed-point histogram), not proved (rule cascades). Tie: random two-host "
           "histories on the real daemons followed by fault-free rounds to a fixed point; residue classified by an oracle written from "
-          "the property's list. Known finding F16 (shadowed duplicate request)."),
-    note=NOTE_COMMON + " Daemon objects are re-created every pass (a restarted daemon); HSM groups and multi-node transport groups are not in these histories.",
+          "the property's list; daemons persist across passes; worlds with multi-node groups and Lustre-HSM nodes (scripted lfs) plus 36 enumerated "
+          "HSM fault scenarios; real TransportGroupIO.pull_force vs the model. Known finding F16 (shadowed duplicate request)."),
+    note=NOTE_COMMON + " Transport and LustreHSM *group* classes are not in the histories (their node choice / node tasks are tied separately).",
     technique="Lean 4 proof (progress + fixed-point classification) + convergence runs of the real daemons with residue oracle",
-    ref="§5 C05"),
+    ref="DESIGN.md §4 C05"),
  "C07": dict(
     text=("Lean theorems: every first-level step an update pass creates (iterateOps) acts on a node that is local, active and carries its "
           "marker; a step changes storage only on the node it acts on; rows of other nodes change only by has:=M (source suspect) or "
-          "wants:=N (autoclean), never created/removed. Tie: two real daemons on one index with activation flips, host reassignment, "
-          "marker changes; every tree and copy-row change attributed to the acting host; queued tasks vs iterateOps."),
+          "wants:=N (autoclean), never created/removed; a transfer is decided only when exactly one node of the group is usable on this "
+          "host; an init task is queued only for a local active unmarked node with a pending request naming it. Tie: two real persistent "
+          "daemons on one index with activation flips, host reassignment, marker changes, disk swaps (56 enumerated scenarios), init requests, "
+          "auto-import watchers (fake observer) and two-worker passes; every tree and copy-row change attributed to the acting host; "
+          "queued tasks, transfers and init tasks vs iterateOps / initTasks."),
     note=NOTE_COMMON + " A task already queued when an operator deactivates its node still runs (effects attributed to the state read at dispatch).",
     technique="Lean 4 proof (dispatch targets + frame conditions) + attributed multi-daemon histories",
-    ref="§5 C07"),
+    ref="DESIGN.md §4 C07"),
  "C08": dict(
     text=("Lean theorems: unique (file,node), unique ids preserved by every step; index/storage agreement (healthy untracked copy => bytes "
           "with the registered length) preserved over every history with tracked damage (faults/overrides add, a completed check clears, an "
@@ -106,7 +114,7 @@ CLAIMED = {
           "after every step."),
     note=NOTE_COMMON + " Uniqueness/enum legality rest on the SQL engine and EnumField; timestamps checked only by the tie.",
     technique="Lean 4 proof (inductive invariant with tracked-damage set) + invariant evaluation on real histories",
-    ref="§5 C08"),
+    ref="DESIGN.md §4 C08"),
  "C09": dict(
     text=("Lean theorems: every prefix of the primitive effects of a pull keeps the crash invariant (wanted healthy copies have bytes; "
           "completed requests have a destination copy), the index part is all-or-nothing around the transaction; every prefix of a delete "
@@ -115,7 +123,7 @@ CLAIMED = {
           "real state, daemon restarted to a fixed point and compared with an uninterrupted run. Known finding F17b (rules not replayed)."),
     note=NOTE_COMMON + " Crash = process death; power loss / fsync / SQLite journal durability outside.",
     technique="Lean 4 proof over effect prefixes + exhaustive crash-point injection on the real tasks",
-    ref="§5 C09"),
+    ref="DESIGN.md §4 C09"),
  "C10": dict(
     text=("Lean theorems over an abstract Task/Worker model for every fault plan (DB error in the body or in any subset of clean-ups): "
           "every pending clean-up starts exactly once, task_done exactly once, no global abort, requeue iff requested, worker exits to be "
@@ -123,7 +131,7 @@ CLAIMED = {
           "Worker.run/Task/WorkerPool/RetryOperationalError executed for every fault position of small shapes and random tasks."),
     note=NOTE_COMMON + " URL databases cannot be opened with peewee 4.5.1 (F8); retry checked over a scripted base class.",
     technique="Lean 4 proof over fault plans + exhaustive fault-position correspondence on the real worker",
-    ref="§5 C10"),
+    ref="DESIGN.md §4 C10"),
  "C11": dict(
     text=("Lean theorems for every operation sequence over any key set (any number of threads; one op = one critical section): the queue's "
           "redundant counters equal the truth (QInv), delivered ⊎ queued ⊎ deferred ⊎ discarded = accepted (exactly once), per-FIFO "
@@ -131,14 +139,14 @@ CLAIMED = {
           "queue under a deterministic scheduler, every private field compared after every critical section."),
     note=NOTE_COMMON + " threading.Lock/Condition semantics as implemented by the cooperative shim; OS scheduler fairness.",
     technique="Lean 4 proof (inductive invariant with ghost history) + schedule-controlled correspondence",
-    ref="§5 C11"),
+    ref="DESIGN.md §4 C11"),
  "C12": dict(
     text=("Lean theorems: exclusive items are delivered only into an idle FIFO and lock it until task_done; the chosen FIFO is eligible with "
           "minimal in-progress count; deferrals are promoted exactly when due; a yielding task is re-put with the same key/exclusivity; "
           "clean-ups run exactly once after the final step. Tie: real queue under the scheduler + real Task/Worker runs."),
     note=NOTE_COMMON + " virtual clock replaces time.monotonic; Python set iteration order is an observed input.",
     technique="Lean 4 proof + schedule-controlled correspondence",
-    ref="§5 C12"),
+    ref="DESIGN.md §4 C12"),
  "C13": dict(
     text=("Lean theorems for any number of threads and every schedule of critical sections: up/down never coexist, re-entrancy, opposite "
           "request and foreign release rejected, parked un-notified threads are genuinely blocked (no lost wake-up), some thread can always "
@@ -146,21 +154,21 @@ CLAIMED = {
           "UpDownLock under the deterministic scheduler (exhaustive binary schedules for the F3 pair, random programs)."),
     note=NOTE_COMMON + " mutex/condition semantics of the shim; fairness of the OS scheduler.",
     technique="Lean 4 proof (inductive invariant over critical sections) + schedule-controlled correspondence",
-    ref="§5 C13"),
+    ref="DESIGN.md §4 C13"),
  "C15": dict(
     text=("Lean theorems for every copy table, shortfall, pending set and node type: no removable copy is selected without pressure, "
           "selection is an id-ordered sub-list, a removable copy is selected iff the shortfall remaining after the copies queued before it "
           "is positive, released non-pending copies are all selected, batches concatenate to the selection. Tie: real update_delete."),
     note=NOTE_COMMON + " space values restricted to KiB-exact floats.",
     technique="Lean 4 proof (induction over the ordered pass) + differential correspondence on SQLite",
-    ref="§5 C15"),
+    ref="DESIGN.md §4 C15"),
  "C16": dict(
     text=("Lean theorems for every rule graph/copy table: the requests created are exactly one per firing autosync rule, the released copies "
           "exactly those of firing autoclean rules, self-loops ignored, everything else unchanged; counter-example for the pinned code. "
           "Tie: real post_add on SQLite over random graphs."),
     note=NOTE_COMMON,
     technique="Lean 4 proof (exact characterisation + frame) + differential correspondence on SQLite",
-    ref="§5 C16"),
+    ref="DESIGN.md §4 C16"),
  "C19": dict(
     text=("Lean theorems for all tables, cursors, batch sizes k and all sequences of changing tables: each QueryWalker.get "
           "returns exactly k ids from the table continuing at the cursor and wrapping; an id present throughout is returned "
@@ -168,7 +176,7 @@ CLAIMED = {
           "real QueryWalker on SQLite with churn and real run_auto_verify (virtual clock) vs the model, plus a cyclic-order oracle."),
     note=NOTE_COMMON + " SQL ORDER BY/LIMIT semantics trusted; time zone UTC (last_update.timestamp() on naive values).",
     technique="Lean 4 proof (induction over call sequences) + differential correspondence on SQLite",
-    ref="§5 C19"),
+    ref="DESIGN.md §4 C19"),
  "C20": dict(
     text=("Lean theorems: for every path (incl. paths containing the state keywords) the parsed HSM state depends only on the flags/action "
           "after the path prefix; a restore-wait that ends leaves no bookkeeping for the file, for every answer sequence; ready only after a "
@@ -177,7 +185,7 @@ CLAIMED = {
           "run_command, real LustreHSMNodeIO (_restore_wait, release_files, idle state check, open) with a scripted LFS object."),
     note=NOTE_COMMON + " Real lfs/HSM behaviour is a parameter; residency is what the index/lfs report; multi-iteration HSM histories are exercised only at the level of these steps.",
     technique="Lean 4 proof (string lemma for all paths, bookkeeping invariant over answer sequences) + differential correspondence",
-    ref="§5 C20"),
+    ref="DESIGN.md §4 C20"),
 }
 
 checks = []
